@@ -27,6 +27,13 @@ Theorem C13_fixed_axis : forall h nb, 0 < h -> (2 <= nb)%nat ->
   /\ headq xs == - (inject_Z (Z.of_nat (nb / 2)) * h) /\ lastq xs == inject_Z (Z.of_nat (nb / 2)) * h.
 Proof. exact fixed_admissible. Qed.
 
+(* CTMCUniformGrid (repaired: ValueError unless int(|l|/h) >= 2 and int(r/h) >= 1; linspace as its mathematical
+   sequence): whenever it returns an axis, the axis is admissible, starts at the left truncation bound and ends at the
+   right truncation bound (or at h when int(r/h) = 1: the reported truncation is then axis[-1] = h) *)
+Theorem C13_uniform_admissible : forall l h r xs o, 0 < h -> l < 0 -> 0 < r -> uniform_axis l h r = Some (xs, o) ->
+  admissible xs o h /\ headq xs == l /\ (lastq xs == r \/ lastq xs == h).
+Proof. exact uniform_admissible. Qed.
+
 (* CTMCCredit (repaired: raises unless every axis is strictly increasing): whenever it returns a grid, every
    axis is admissible with origin index 4, end points at the truncation bounds (l, r), and the cell boundary
    between the states a-eps and a+eps is exactly the threshold a (used by C19) *)
@@ -108,6 +115,7 @@ Proof. vm_compute. repeat split. eexists; reflexivity. Qed.
 Print Assumptions C13_assembly_admissible.
 Print Assumptions C13_fixed_admissible.
 Print Assumptions C13_fixed_axis.
+Print Assumptions C13_uniform_admissible.
 Print Assumptions C13_credit_admissible.
 Print Assumptions C13_credit_guards_suffice.
 Print Assumptions C13_refine_loop.
